@@ -2,7 +2,7 @@
    Speeds are f32 bit patterns of non-negative, non-NaN floats (their order is the numeric order);
    lists are duplicate-free in the cipher id (NoDup (ids _)), as parse_algorithms / the wire decoder
    of an honest peer produce them. *)
-From VpnModel Require Import Base Core Conn PeerCrypto NegotiateProofs.
+From VpnModel Require Import Base Core Conn PeerCrypto NegotiateProofs Table Node NextHopProofs SealedWireProofs.
 From Coq Require Import Permutation.
 
 Theorem C06_plain_iff : forall own peer,
@@ -40,6 +40,19 @@ Proof. exact select_order_independent. Qed.
 Theorem C06_transit_edit_dropped : forall payload_ok p, pc_handle payload_ok p WBadInit = (p, Err 1, None).
 Proof. intros payload_ok p. unfold pc_handle. destruct (pc_init p); reflexivity. Qed.
 
+(* NODE, every reachable state: the negotiation never falls back to "plain" on a node that does not allow it - whatever the peers
+   offer, whatever arrives, in whatever order: no unencrypted message leaves, no node information travels unsealed, no peer's
+   connection is unencrypted *)
+Theorem C06_never_plain_unless_allowed : forall salts c t0 evs, a_plain (c_algos c) = false ->
+  (forall dst w, In (XSend dst w) (nrun_fx salts (node_new c t0) evs) ->
+     match w with
+     | WPlain _ => False
+     | WInit m => match im_payload m with Some (PPlain _) => False | _ => True end
+     | _ => True
+     end) /\
+  (forall a pd, aget (n_peers (nrun salts (node_new c t0) evs)) a = Some pd -> pc_plain (p_crypto pd) = false).
+Proof. exact no_cleartext_ever. Qed.
+
 Example C06_ex_tie :
   let a := {| a_list := [(1, 600); (2, 600)]; a_plain := false |} in
   let b := {| a_list := [(2, 600); (1, 600)]; a_plain := false |} in
@@ -52,3 +65,4 @@ Print Assumptions C06_best_minspeed.
 Print Assumptions C06_symmetric.
 Print Assumptions C06_order_independent.
 Print Assumptions C06_transit_edit_dropped.
+Print Assumptions C06_never_plain_unless_allowed.
